@@ -2,4 +2,4 @@
     sumbool map to OCaml natives; N, positive, nat, string, ascii stay the extracted inductives. *)
 From Coq Require Import ExtrOcamlBasic.
 From RS Require Import Base.Bytes Base.Outcome Interp.Run Pkt.Csum Spec.Wire Spec.PcapRead Spec.Reasm4 Spec.Tunnel.
-Extraction "rsmodel.ml" run csum_partial csum_fold ipv4_ok tcp_ok udp_len_ok udp_csum_ok icmp_ok verifies pcap_read reassemble fragment_of vxlan_decode gre_decode erspan2_decode.
+Extraction "rsmodel.ml" run run_src csum_partial csum_fold ipv4_ok tcp_ok udp_len_ok udp_csum_ok icmp_ok verifies pcap_read reassemble fragment_of vxlan_decode gre_decode erspan2_decode.
